@@ -164,6 +164,26 @@ func runC08(c *Ctx) {
 		}
 	}
 
+	// ---- E13 ----------------------------------------------------------------
+	// "Invalid patterns are rejected with the 'invalid' kind" — and valid ones are not. The patterns are Go regular expressions
+	// (package regexp's syntax); the POSIX compiler refuses a good part of it (\d, \w, (?:…), (?i), lazy quantifiers): with it
+	// every operation rejects such a pattern as 'invalid' and processes nothing.
+	c.rule("E13", "the patterns are compiled as Go regular expressions: no call of regexp.CompilePOSIX / MustCompilePOSIX in package filesystem (the POSIX dialect refuses \\d, (?:…), (?i), lazy quantifiers — valid patterns would be rejected as 'invalid')", 0)
+	{
+		bad := ""
+		for _, f := range c.srcFuncs(fsPkgRel) {
+			allInstrs(f, func(in ssa.Instruction) {
+				if cc := callCommon(in); cc != nil {
+					if n := calleeFull(cc); n == "regexp.CompilePOSIX" || n == "regexp.MustCompilePOSIX" {
+						bad = c.ipos(in) + " (" + fname(outermost(f)) + ")"
+					}
+				}
+			})
+		}
+		c.check(bad == "", "E13", fsPkgRel+"/patterns-are-go-regular-expressions", "-", "no POSIX compilation of a pattern in package filesystem",
+			"a pattern is compiled with the POSIX compiler at "+bad+": patterns using Go's syntax beyond the POSIX subset (`k\\d`, `(?:k)[12]`, `(?i)K[0-9]`, `k\\w+?`) are rejected with the 'invalid' kind by every operation, although they are valid and no entry they do not name is protected")
+	}
+
 	isRE := func(g *ssa.Function) bool {
 		_, ok := s.E[g]
 		return ok && !c08Appliers[g.Name()] && !c08Listers[g.Name()]
